@@ -131,7 +131,7 @@ def replay_file(plan, path, keep=False):
     logs_dir = os.path.join(dcv.OUT, "logs", doc["property"], "replay")
     os.makedirs(logs_dir, exist_ok=True)
     h = {"name": doc["harness"], "crate": doc["crate"]}
-    out = native_replay(plan, ws, doc.get("tier", "quick"), 0, h, doc["playback_test"], logs_dir, profiles=("dev", "release"))
+    out = native_replay(plan, ws, doc.get("tier", "quick"), 0, h, doc["playback_test"], logs_dir, profiles=("dev",))
     print(json.dumps(out, indent=1))
     if out["reproduced"]:
         print("VIOLATION property=%s replay=%s" % (doc["property"], path))
